@@ -17,8 +17,8 @@ func init() {
 		Rule:           "runs = (sometimes after a quiet prelude in which weeks pass, and are archived, before the GCA registers and before any device exists) generated histories of reports, authorizations/bans, clock advances (1 slot to several weeks), simulated time (real rotation loop), restarts, statistics GETs (archived / live first / live second / future / misaligned, with and without insert_false_negatives); every rotation is observed inside migrateReports and checked slot by slot; non-trivial = at least one rotation and one archived-week query happened; distinct = distinct decision signatures",
 		Real:           []string{"rotation loop and migrateReports", "impact-rate loop (repo's test stub for the WattTime value)", "AllDeviceStatsHandler/buildDeviceStats", "allDeviceStats.dat persistence and load", "report/authorization paths"},
 		Stub:           []string{"WattTime service (repo's own test-mode stub)", "socket listeners"},
-		RequiredProbes: []string{"hist.rotation", "hist.stats-archived", "hist.stats-archived-falseneg", "hist.restart", "hist.multi-rotation", "c03.ban-before-rotation", "c03.empty-week-archived"},
-		RequiredSites:  []string{"migrate.before-shift", "migrate.after-shift", "stats.after-write", "migrate.wake", "stats.postlock"},
+		RequiredProbes: []string{"hist.rotation", "hist.stats-archived", "hist.stats-archived-falseneg", "hist.restart", "hist.multi-rotation", "c03.ban-before-rotation", "c03.empty-week-archived", "c03.authorization-in-front-of-rotation"},
+		RequiredSites:  []string{"migrate.before-shift", "migrate.after-shift", "stats.after-write", "migrate.wake", "stats.postlock", "migrate.prelock"},
 	})
 }
 
@@ -50,6 +50,19 @@ func runC03(m *Sim) {
 		}
 	}
 	h.Setup(1 + m.C.Int("devices", 3))
+	// The rotation thread may be overtaken right in front of its critical
+	// section by an authorization (a new device, a conflict that bans one): the
+	// week it archives is the week as it is when the rotation takes the lock.
+	w.S.EnableSites("migrate.prelock")
+	w.OnPark = func(p *Parked) {
+		if p.Site != "migrate.prelock" || !h.N.Up || !h.N.Model.Registered || !m.C.Chance("authorization-before-rotation", 1, 3) {
+			return
+		}
+		// (Rotations that completed earlier in this step enter the model first.)
+		h.applyRotations(false)
+		h.OpAuthorize()
+		m.Probe("c03.authorization-in-front-of-rotation")
+	}
 	nops := 10 + m.C.Int("ops", 50)
 	for i := 0; i < nops; i++ {
 		switch m.C.Weighted("op", 8, 2, 3, 4, 4, 1, 2) {
